@@ -557,6 +557,7 @@ func readHeaderRules(c *Ctx) {
 		}
 		n++
 		var magicOK, numOK, frameOK, chunkOK, lastOK bool
+		rl := readHeaderRoles(fi)
 		for k, v := range s.m {
 			if !strings.HasPrefix(k, "p:") {
 				continue
@@ -566,15 +567,15 @@ func readHeaderRules(c *Ctx) {
 				continue
 			}
 			switch {
-			case op == "==" && l == magic && strings.HasPrefix(r, "magicNumber@") && v == "T":
+			case op == "==" && l == magic && isLocalTerm(r) && v == "T":
 				magicOK = true
-			case op == "<" && strings.HasPrefix(l, "numOffsets@") && r == "#2" && v == "F":
+			case op == "<" && strings.HasPrefix(l, rl["numOffsets"]+"@") && r == "#2" && v == "F", op == "<=" && strings.HasPrefix(l, rl["numOffsets"]+"@") && r == "#1" && v == "F":
 				numOK = true
-			case op == "==" && (strings.HasPrefix(l, "frameSize@") && strings.HasPrefix(r, "metadataSize@")) && v == "T":
+			case op == "==" && ((strings.HasPrefix(l, rl["frameSize"]+"@") && strings.HasPrefix(r, rl["metadataSize"]+"@")) || (strings.HasPrefix(r, rl["frameSize"]+"@") && strings.HasPrefix(l, rl["metadataSize"]+"@"))) && v == "T":
 				frameOK = true
 			case op == "==" && l == "#0" && strings.HasSuffix(r, ".chunkSize") && v == "F":
 				chunkOK = true
-			case op == "==" && strings.HasPrefix(l, "foundFileSize@") && strings.HasPrefix(r, "prevOffset@") && v == "T":
+			case op == "==" && ((strings.HasPrefix(l, rl["foundFileSize"]+"@") && strings.HasPrefix(r, rl["prevOffset"]+"@")) || (strings.HasPrefix(r, rl["foundFileSize"]+"@") && strings.HasPrefix(l, rl["prevOffset"]+"@"))) && v == "T":
 				lastOK = true
 			}
 		}
@@ -592,8 +593,8 @@ func readHeaderRules(c *Ctx) {
 	// metadataSize = numOffsets*8 + 21
 	okMeta := false
 	ast.Inspect(fi.Decl.Body, func(m ast.Node) bool {
-		if as, ok := m.(*ast.AssignStmt); ok && len(as.Lhs) == 1 && exprStr(as.Lhs[0]) == "metadataSize" {
-			if a, b, ok := linN(info, as.Rhs[0], "numOffsets"); ok && a == 8 && b == 21 {
+		if as, ok := m.(*ast.AssignStmt); ok && len(as.Lhs) == 1 && exprStr(as.Lhs[0]) == readHeaderRoles(fi)["metadataSize"] {
+			if a, b, ok := linN(info, as.Rhs[0], readHeaderRoles(fi)["numOffsets"]); ok && a == 8 && b == 21 {
 				okMeta = true
 			}
 		}
@@ -609,7 +610,7 @@ func readHeaderRules(c *Ctx) {
 		}
 		for _, st := range f.Body.List {
 			if is, ok := st.(*ast.IfStmt); ok {
-				if be, ok := is.Cond.(*ast.BinaryExpr); ok && be.Op == token.LEQ && strings.Contains(exprStr(be.X), ".chunkOffsets[") && exprStr(be.Y) == "prevOffset" {
+				if be, ok := is.Cond.(*ast.BinaryExpr); ok && be.Op == token.LEQ && strings.Contains(exprStr(be.X), ".chunkOffsets[") && exprStr(be.Y) == readHeaderRoles(fi)["prevOffset"] {
 					if _, isRet := is.Body.List[len(is.Body.List)-1].(*ast.ReturnStmt); isRet {
 						okInc = true
 					}
@@ -619,13 +620,13 @@ func readHeaderRules(c *Ctx) {
 		// prevOffset = h.chunkOffsets[i]
 		adv := false
 		for _, st := range f.Body.List {
-			if as, ok := st.(*ast.AssignStmt); ok && exprStr(as.Lhs[0]) == "prevOffset" && strings.Contains(exprStr(as.Rhs[0]), ".chunkOffsets[") {
+			if as, ok := st.(*ast.AssignStmt); ok && exprStr(as.Lhs[0]) == readHeaderRoles(fi)["prevOffset"] && strings.Contains(exprStr(as.Rhs[0]), ".chunkOffsets[") {
 				adv = true
 			}
 		}
 		okInc = okInc && adv
 		// covers the whole table
-		if be, ok := f.Cond.(*ast.BinaryExpr); !ok || be.Op != token.LSS || exprStr(be.Y) != "numOffsets" {
+		if be, ok := f.Cond.(*ast.BinaryExpr); !ok || be.Op != token.LSS || exprStr(be.Y) != readHeaderRoles(fi)["numOffsets"] {
 			okInc = false
 		}
 		return true
@@ -828,11 +829,15 @@ func formatRules(c *Ctx, want map[string]bool) {
 						le = false
 					}
 					seq = append(seq, basicName(info.TypeOf(call.Args[2])))
-					dst = append(dst, strings.TrimPrefix(exprStr(call.Args[2]), "&"))
+					d := strings.TrimPrefix(exprStr(call.Args[2]), "&")
+					if !strings.Contains(d, ".") {
+						d = "local " + basicName(info.TypeOf(call.Args[2]))
+					}
+					dst = append(dst, d)
 				}
 			}
 			R.Check(strings.Join(seq, ",") == strings.Join(spec, ",") && le, "R20b", c.Cfg+"readHeader:sequence", c.P.Pos(fr.Decl.Pos()), "readHeader reads "+strings.Join(spec, ", ")+" little-endian", "reads "+strings.Join(seq, ", "))
-			R.Check(strings.Join(dst, ",") == "magicNumber,frameSize,h.uncompressedSize,h.compression,h.chunkSize,numOffsets,h.chunkOffsets", "R20b", c.Cfg+"readHeader:destinations", c.P.Pos(fr.Decl.Pos()),
+			R.Check(len(dst) == 7 && strings.HasPrefix(dst[0], "local ") && strings.HasPrefix(dst[1], "local ") && strings.HasSuffix(dst[2], ".uncompressedSize") && strings.HasSuffix(dst[3], ".compression") && strings.HasSuffix(dst[4], ".chunkSize") && strings.HasPrefix(dst[5], "local ") && strings.HasSuffix(dst[6], ".chunkOffsets"), "R20b", c.Cfg+"readHeader:destinations", c.P.Pos(fr.Decl.Pos()),
 				"the values land in magic, frame size, uncompressedSize, compression, chunkSize, table length, table", "destinations: "+strings.Join(dst, ","))
 		}
 		if fe := c.P.MustFunc(R, "R20b", "casblob.ExtractLogicalSize"); fe != nil {
@@ -902,12 +907,42 @@ func formatRules(c *Ctx, want map[string]bool) {
 			if loop != nil {
 				// first statement records the offset; fileOffset advances by bytes written
 				first, adv := false, false
-				if as, ok := loop.Body.List[0].(*ast.AssignStmt); ok && strings.HasSuffix(exprStr(as.Lhs[0]), ".chunkOffsets[nextChunk]") && exprStr(as.Rhs[0]) == "fileOffset" {
+				// the running file offset is the local that starts at the header size
+				var offObj, idxObj, writtenObj types.Object
+				ast.Inspect(f.Decl.Body, func(n ast.Node) bool {
+					if as, ok := n.(*ast.AssignStmt); ok && len(as.Lhs) >= 1 && len(as.Rhs) == 1 {
+						if call, ok := ast.Unparen(as.Rhs[0]).(*ast.CallExpr); ok {
+							if sel, ok := call.Fun.(*ast.SelectorExpr); ok && sel.Sel.Name == "size" && len(call.Args) == 0 {
+								offObj = identObj(info, as.Lhs[0])
+							}
+							if strings.HasSuffix(fullCalleeName(info, call), "os.(File).Write") || (func() bool { sel, ok := call.Fun.(*ast.SelectorExpr); return ok && sel.Sel.Name == "Write" && len(call.Args) == 1 })() {
+								if as.Pos() > loop.Pos() && as.End() < loop.End() {
+									writtenObj = identObj(info, as.Lhs[0])
+								}
+							}
+						}
+					}
+					return true
+				})
+				tableEntry := func(e ast.Expr) types.Object {
+					if ix, ok := ast.Unparen(e).(*ast.IndexExpr); ok && strings.HasSuffix(exprStr(ix.X), ".chunkOffsets") {
+						return identObj(info, ix.Index)
+					}
+					return nil
+				}
+				if as, ok := loop.Body.List[0].(*ast.AssignStmt); ok && tableEntry(as.Lhs[0]) != nil && offObj != nil && identObj(info, as.Rhs[0]) == offObj {
 					first = true
+					idxObj = tableEntry(as.Lhs[0])
 				}
 				for _, st := range loop.Body.List {
-					if as, ok := st.(*ast.AssignStmt); ok && as.Tok == token.ADD_ASSIGN && exprStr(as.Lhs[0]) == "fileOffset" && strings.Contains(exprStr(as.Rhs[0]), "written") {
-						adv = true
+					if as, ok := st.(*ast.AssignStmt); ok && as.Tok == token.ADD_ASSIGN && offObj != nil && identObj(info, as.Lhs[0]) == offObj {
+						r := ast.Unparen(as.Rhs[0])
+						if call, ok := r.(*ast.CallExpr); ok && len(call.Args) == 1 {
+							r = ast.Unparen(call.Args[0])
+						}
+						if writtenObj != nil && identObj(info, r) == writtenObj {
+							adv = true
+						}
 					}
 				}
 				R.Check(first, "R20c", c.Cfg+"WriteAndClose:offset-before-chunk", c.P.Pos(loop.Pos()), "the table entry of a chunk is the file offset before the chunk is written", "the loop does not start by recording fileOffset in chunkOffsets[nextChunk]")
@@ -915,7 +950,7 @@ func formatRules(c *Ctx, want map[string]bool) {
 				// after the loop: final entry = fileOffset
 				fin := false
 				ast.Inspect(f.Decl.Body, func(n ast.Node) bool {
-					if as, ok := n.(*ast.AssignStmt); ok && as.Pos() > loop.End() && strings.HasSuffix(exprStr(as.Lhs[0]), ".chunkOffsets[nextChunk]") && exprStr(as.Rhs[0]) == "fileOffset" {
+					if as, ok := n.(*ast.AssignStmt); ok && as.Pos() > loop.End() && len(as.Lhs) == 1 && tableEntry(as.Lhs[0]) != nil && tableEntry(as.Lhs[0]) == idxObj && offObj != nil && identObj(info, as.Rhs[0]) == offObj {
 						fin = true
 					}
 					return true
@@ -924,8 +959,12 @@ func formatRules(c *Ctx, want map[string]bool) {
 				// fileOffset starts at h.size()
 				start := false
 				ast.Inspect(f.Decl.Body, func(n ast.Node) bool {
-					if as, ok := n.(*ast.AssignStmt); ok && len(as.Lhs) == 1 && exprStr(as.Lhs[0]) == "fileOffset" && exprStr(as.Rhs[0]) == "h.size()" {
-						start = true
+					if as, ok := n.(*ast.AssignStmt); ok && len(as.Lhs) == 1 && offObj != nil && identObj(info, as.Lhs[0]) == offObj && as.Pos() < loop.Pos() {
+						if call, ok := ast.Unparen(as.Rhs[0]).(*ast.CallExpr); ok {
+							if sel, ok := call.Fun.(*ast.SelectorExpr); ok && sel.Sel.Name == "size" {
+								start = true
+							}
+						}
 					}
 					return true
 				})
@@ -935,4 +974,68 @@ func formatRules(c *Ctx, want map[string]bool) {
 			}
 		}
 	}
+}
+
+
+// readHeaderRoles names the locals of readHeader by what they are used for, so
+// that renaming them does not matter: the table length is the length argument
+// of the make that creates the chunk table; the expected frame size is the
+// local assigned 8*length+21; the frame size is what it is compared with; the
+// file size is the local assigned from FileInfo.Size(); the previous offset is
+// the local assigned from a table element inside the loop.
+func readHeaderRoles(fi *FuncInfo) map[string]string {
+	info := fi.Pkg.TypesInfo
+	r := map[string]string{"numOffsets": "numOffsets", "metadataSize": "metadataSize", "frameSize": "frameSize", "foundFileSize": "foundFileSize", "prevOffset": "prevOffset"}
+	ast.Inspect(fi.Decl.Body, func(n ast.Node) bool {
+		as, ok := n.(*ast.AssignStmt)
+		if !ok || len(as.Rhs) != 1 || len(as.Lhs) < 1 {
+			return true
+		}
+		rhs := ast.Unparen(as.Rhs[0])
+		if call, ok := rhs.(*ast.CallExpr); ok {
+			if id, ok := call.Fun.(*ast.Ident); ok && id.Name == "make" && len(call.Args) == 2 && strings.HasSuffix(exprStr(as.Lhs[0]), ".chunkOffsets") {
+				if a, ok := ast.Unparen(call.Args[1]).(*ast.Ident); ok {
+					r["numOffsets"] = a.Name
+				}
+			}
+			if strings.HasSuffix(fullCalleeName(info, call), "FileInfo).Size") {
+				if id, ok := as.Lhs[0].(*ast.Ident); ok {
+					r["foundFileSize"] = id.Name
+				}
+			}
+		}
+		if ix, ok := rhs.(*ast.IndexExpr); ok && strings.HasSuffix(exprStr(ix.X), ".chunkOffsets") {
+			if id, ok := as.Lhs[0].(*ast.Ident); ok {
+				r["prevOffset"] = id.Name
+			}
+		}
+		return true
+	})
+	ast.Inspect(fi.Decl.Body, func(n ast.Node) bool {
+		if as, ok := n.(*ast.AssignStmt); ok && len(as.Lhs) == 1 && len(as.Rhs) == 1 {
+			if a, b, ok := linN(info, as.Rhs[0], r["numOffsets"]); ok && a == 8 && b == 21 {
+				if id, ok := as.Lhs[0].(*ast.Ident); ok {
+					r["metadataSize"] = id.Name
+				}
+			}
+		}
+		return true
+	})
+	ast.Inspect(fi.Decl.Body, func(n ast.Node) bool {
+		if be, ok := n.(*ast.BinaryExpr); ok && (be.Op == token.NEQ || be.Op == token.EQL) {
+			for _, pr := range [][2]ast.Expr{{be.X, be.Y}, {be.Y, be.X}} {
+				if id, ok := ast.Unparen(pr[1]).(*ast.Ident); ok && id.Name == r["metadataSize"] {
+					o := ast.Unparen(pr[0])
+					if call, ok := o.(*ast.CallExpr); ok && len(call.Args) == 1 {
+						o = ast.Unparen(call.Args[0])
+					}
+					if oid, ok := o.(*ast.Ident); ok {
+						r["frameSize"] = oid.Name
+					}
+				}
+			}
+		}
+		return true
+	})
+	return r
 }
